@@ -227,9 +227,6 @@ class Gen:
             return False
         if n in self.temp and k not in ("assign", "for", "read", "printf", "arith"):
             return False                                   # attributes of a temporary binding: bash propagates some to the global
-        if k in ("elem", "unset-elem") or "[" in sh.split("=")[0]:
-            if n in self.ro:
-                return False                               # readonly_element_write
         if k in ("local", "declare") and depth > 0 and "-g" not in sh:
             if n in self.ro or n in self.exp or n in self.temp:
                 return False                               # readonly / exported global shadowed by a local
